@@ -72,6 +72,19 @@ mobility_from_composition_set called with the object's own callables):
                      Darken, interdiff_tracer_consistency, flux_sum_zero - and in addition both public results must equal
                      those of an object that lists only this phase (default call), 1e-6 (two separate solver runs: worst seen 9e-10; same corrections
                      are set on both objects).
+  user_tracer / user_interdiff
+                     (configuration class 'user-defined kinetics', added on the coordinator's request after a seeded
+                     late-binding lambda in setMobility/setDiffusivity(dict) went unnoticed - tracer and interdiffusivity
+                     stayed consistent with each other)  On dedicated objects (Al-Zr with and without database kinetics,
+                     Cu-Ti, Fe-Cr, Fe-Ni, Ni-Cr-Al, Fe-Cr-Ni, Al-Mg-Si, Ni-Cr-Al DIFF; binary and ternary) mobilities or
+                     diffusivities are set through every public form - single function, dictionary in five key orders
+                     (input, reversed, alphabetical, rotated, random), element=... one at a time, each overwriting the
+                     previous setting - with a distinct random Arrhenius function per element.  After every setting step,
+                     with scalar and array T: setMobility: D*_e = R_eff T M_e(T) (R band and spread as tracer_rtm) and
+                     D^n_kj = sum_i (delta_ik - x_k) x_i M_i(T) dmu_i/d(x_j - x_n) with the PRESCRIBED M_i and the phase
+                     record Hessian (1e-6; binary also Darken with G'' = dMudX); setDiffusivity (documented: the callable
+                     is the element's diffusivity): D*_e = D_e(T) and interdiffusivity = diag(D_e) over the non-reference
+                     elements in input order, 1e-12.
   Mobility corrections: two thirds of the cases on mobility databases run after therm.setMobilityCorrection - uniform
   ('all', f) or on one/two elements (reference element included in ~half of them), f log-uniform in 0.2..8 - and every
   mobility clause is evaluated with the corrected mobility f_i M_i: tracer = R T f_i M_i, compiled mobility vector,
@@ -100,7 +113,7 @@ RULE = ('cases = (database, matrix phase, thermodynamics class, element order/re
         'block).')
 REQUIRED_MONITORS = ['call_succeeds', 'hessian_fd', 'hessian_reference', 'hessian_symmetric', 'hessian_posdef',
                      'interdiff_eigen', 'tracer_positive', 'tracer_rtm', 'darken_binary', 'flux_sum_zero',
-                     'interdiff_tracer_consistency', 'phase_argument_reference']
+                     'interdiff_tracer_consistency', 'phase_argument_reference', 'user_tracer', 'user_interdiff']
 REACH = ['thermo/FreeEnergyHessian.py:hessian', 'thermo/FreeEnergyHessian.py:totalddx',
          'thermo/FreeEnergyHessian.py:dMudX', 'thermo/FreeEnergyHessian.py:partialdMudX',
          'thermo/Mobility.py:mobility_from_composition_set', 'thermo/Mobility.py:tracer_diffusivity',
@@ -113,7 +126,9 @@ REACH = ['thermo/FreeEnergyHessian.py:hessian', 'thermo/FreeEnergyHessian.py:tot
          'thermo/Thermodynamics.py:GeneralThermodynamics._tracerDiffusivitySingle',
          'thermo/Thermodynamics.py:GeneralThermodynamics.getLocalEq',
          'thermo/LocalEquilibrium.py:local_equilibrium',
-         'thermo/Thermodynamics.py:GeneralThermodynamics.setMobilityCorrection']
+         'thermo/Thermodynamics.py:GeneralThermodynamics.setMobilityCorrection',
+         'thermo/Thermodynamics.py:GeneralThermodynamics.setMobility',
+         'thermo/Thermodynamics.py:GeneralThermodynamics.setDiffusivity']
 POINTS_PER_CASE = 12
 N_BLOCKS = {'quick': 20, 'thorough': 200}
 MIN_NONTRIVIAL = {'quick': 500, 'thorough': 5000}
@@ -176,6 +191,8 @@ SYSTEMS = {
                     'box': {'AL': None, 'MG': (1.2e-4, 0.14), 'SI': (1.2e-4, 0.016)}, 'model': 'mobility'},
     'CuTi': {'src': ('file', 'CuTi.tdb'), 'T': (650.0, 1330.0),
              'box': {'CU': None, 'TI': (1.2e-4, 0.08)}, 'model': 'mobility'},
+    'AlZr_nokin': {'src': ('dataset', 'ALZR_TDB_NO_MOB'), 'T': (800.0, 932.0),
+                   'box': {'AL': None, 'ZR': (1.02e-4, 9e-4)}, 'model': 'none'},
     'AlZr': {'src': ('dataset', 'ALZR_TDB'), 'T': (800.0, 932.0),
              'box': {'AL': None, 'ZR': (1.02e-4, 9e-4)}, 'model': 'diffusivity'},
 }
@@ -238,7 +255,40 @@ VARIANTS = [
 ]
 
 
+# user-defined kinetics: (system, class, elements, phases, mode); 'diff' only where the phase has no mobility data
+# (kawin prefers mobilities when both exist)
+USER_VARIANTS = [
+    ('AlZr', 'binary', ['AL', 'ZR'], ['FCC_A1', 'AL3ZR'], 'mob'),
+    ('AlZr', 'binary', ['AL', 'ZR'], ['FCC_A1', 'AL3ZR'], 'diff'),
+    ('AlZr_nokin', 'general', ['ZR', 'AL'], ['FCC_A1'], 'mob'),
+    ('AlZr_nokin', 'general', ['AL', 'ZR'], ['FCC_A1'], 'diff'),
+    ('CuTi', 'binary', ['CU', 'TI'], ['FCC_A1', 'CU4TI'], 'mob'),
+    ('CuTi', 'general', ['TI', 'CU'], ['FCC_A1'], 'mob'),
+    ('FeCrNi_bcc', 'general', ['FE', 'CR'], ['BCC_A2'], 'mob'),
+    ('FeCrNi_fcc', 'general', ['NI', 'FE'], ['FCC_A1'], 'mob'),
+    ('NiCrAl', 'general', ['NI', 'CR', 'AL'], ['FCC_A1'], 'mob'),
+    ('NiCrAl', 'multi', ['NI', 'AL', 'CR'], ['FCC_A1', 'FCC_L12'], 'mob'),
+    ('FeCrNi_fcc', 'general', ['CR', 'NI', 'FE'], ['FCC_A1'], 'mob'),
+    ('AlMgSi', 'general', ['AL', 'SI', 'MG'], ['FCC_A1'], 'mob'),
+    ('NiCrAl_diff', 'general', ['NI', 'CR', 'AL'], ['FCC_A1'], 'diff'),
+    ('NiCrAl_diff', 'multi', ['AL', 'NI', 'CR'], ['FCC_A1', 'FCC_L12'], 'diff'),
+    ('NiCrAl_diff', 'general', ['CR', 'NI'], ['FCC_A1'], 'diff'),
+]
+N_USER_BLOCKS = {'quick': 8, 'thorough': 80}
+TOL_USER_EXACT = 1e-12     # setDiffusivity: the public values ARE the prescribed function values
+
+
 def plan(tier, seed):
+    cases = _plan_standard(tier, seed)
+    for b in range(N_USER_BLOCKS[tier]):
+        for vi, (sysname, cls, els, phases, mode) in enumerate(USER_VARIANTS):
+            cases.append({'kind': 'user', 'system': sysname, 'variant': vi, 'cls': cls, 'elements': els,
+                          'phases': phases, 'mode': mode, 'block': b, 'program': (b + vi) % 4, 'n': 8,
+                          'weight': 0.5})
+    return cases
+
+
+def _plan_standard(tier, seed):
     cases = []
     nb = N_BLOCKS[tier]
     for b in range(nb):
@@ -280,7 +330,8 @@ def _source(sysname):
 
 
 def _therm(case):
-    key = (case['system'], case['cls'], tuple(case['elements']), tuple(case['phases']))
+    key = (case['system'], case['cls'], tuple(case['elements']), tuple(case['phases']),
+           case.get('kind', 'standard'), case.get('mode', ''))     # 'user' objects get their kinetics overwritten
     if key not in _THERM:
         from pycalphad import Database
         from kawin.thermo import GeneralThermodynamics, BinaryThermodynamics, MulticomponentThermodynamics
@@ -602,9 +653,214 @@ def _sym_mobility(therm, phase, cs, el):
     return float(mm.mobility[el].xreplace(sub))
 
 
+# ------------------------------------------------------------------------------------------------ user-defined kinetics
+def _arrhenius(A, Q, as_mobility):
+    """Distinct Arrhenius function of T per element (closure over its OWN A, Q)."""
+    def f(T):
+        val = A * np.exp(-Q / (8.314 * T))
+        return val / (8.314 * T) if as_mobility else val
+    f.A, f.Q = A, Q
+    return f
+
+
+def _run_user(case, R):
+    """Configuration class 'user-defined kinetics': mobilities (mode 'mob') or diffusivities (mode 'diff') are set
+    through every public form of setMobility / setDiffusivity (single function; dictionary in several key orders;
+    element=... one at a time; overwriting an earlier setting) with a distinct Arrhenius function per element, and
+    after every setting step the public tracer diffusivity and interdiffusivity are compared with the PRESCRIBED
+    functions: mode 'mob': D*_e = R_eff T M_e(T) and D^n_kj = sum_i (delta_ik - x_k) x_i M_i(T) dmu_i/d(x_j - x_n)
+    (binary: also Darken with G'' = dMudX); mode 'diff' (documented: the callable IS the diffusivity of the element):
+    D*_e = D_e(T) and the interdiffusivity is diag(D_e(T)) over the non-reference elements in input order."""
+    from vlib import core
+    from kawin.thermo.FreeEnergyHessian import dMudX
+    rng = core.case_rng(case['seed'], PROPERTY, case['idx'])
+    sysname, els, mode = case['system'], list(case['elements']), case['mode']
+    n = len(els)
+    therm = _therm(case)
+    phase = therm.phases[0]
+    matrix = case['phases'][0]
+    ref0 = els[0]
+    mob = mode == 'mob'
+    setter = therm.setMobility if mob else therm.setDiffusivity
+    mech0 = {'system': sysname, 'cls': case['cls'], 'elements': '-'.join(els), 'n_elements': n, 'kinetics': 'user',
+             'mode': mode, 'kawin_phase': phase}
+    R.observe('cases_user_' + mode)
+
+    # ---- admitted points (same admission filter)
+    pts = []
+    for _ in range(case['n']):
+        X, T = _sample_point(sysname, els, rng)
+        R.observe('candidates')
+        ok, why = _admissible(sysname, matrix, X, T)
+        R.observe(('admitted_' if ok else 'rejected_') + why)
+        if ok and len(pts) < 4:
+            pts.append((X, T))
+    if not pts:
+        R.set_nontrivial(False)
+        return
+    state = []
+    for X, T in pts:
+        x = [X[e] for e in els[1:]]
+        try:
+            ok, mu0, cs = _mu(therm, phase, x, T)
+            R.count('call_succeeds')
+        except Exception as e:
+            R.exception('call_succeeds', e, dict(mech0, call='getLocalEq'))
+            continue
+        labels = list(cs.phase_record.nonvacant_elements)
+        xcs = np.array(cs.X, dtype=float)
+        if not ok or sorted(labels) != sorted(els) or max(abs(xcs[labels.index(e)] - X[e]) for e in els) > 1e-9:
+            R.observe('skipped_local_eq')
+            continue
+        Phi = _dmu_all(cs, labels, ref0)
+        if Phi is None:
+            R.observe('consistency_reference_not_applicable')
+            continue
+        G2 = float(np.array(dMudX(mu0, cs, ref0))[0, 0]) if n == 2 else None
+        state.append((X, T, x, labels, xcs, Phi, G2))
+    if not state:
+        R.set_nontrivial(False)
+        return
+
+    # ---- program of setting steps; `cur` = functions that must be in force after each step
+    def fresh():
+        return {e: _arrhenius(float(10 ** rng.uniform(-5, -3)), float(rng.uniform(1.2e5, 3.0e5)), mob) for e in els}
+
+    def order(kind):
+        if kind == 'input':
+            return list(els)
+        if kind == 'reversed':
+            return list(els)[::-1]
+        if kind == 'alphabetical':
+            return sorted(els)
+        if kind == 'rotated':
+            return list(els[1:]) + [els[0]]
+        return [els[i] for i in rng.permutation(n)]
+
+    orders = ['input', 'reversed', 'alphabetical', 'rotated', 'random']
+    prog = case['program']
+    steps = []          # (form label, callable performing the public call, expected dict afterwards)
+    cur = {}
+
+    def step_single():
+        f = fresh()[els[0]]
+        steps.append(('single', lambda: setter(f, phase), {e: f for e in els}))
+
+    def step_dict(kind):
+        fs = fresh()
+        d = {e: fs[e] for e in order(kind)}
+        steps.append(('dict_' + kind, lambda: setter(d, phase), dict(fs)))
+
+    def step_element(e, base):
+        fs = fresh()                       # dictionary with new functions for every key, only `e` is to be taken
+        exp = dict(base)
+        exp[e] = fs[e]
+        steps.append(('element', lambda: setter(fs, phase, element=e), exp))
+        return exp
+
+    k0 = orders[(case['block'] + case['variant']) % len(orders)]
+    k1 = orders[(case['block'] + case['variant'] + 2) % len(orders)]
+    if prog == 0:
+        step_single()
+        step_dict(k0)
+    elif prog == 1:
+        step_dict(k0)
+        base = steps[-1][2]
+        for e in order('random'):
+            base = step_element(e, base)
+    elif prog == 2:
+        step_dict(k0)
+        step_single()
+    else:
+        step_dict(k0)
+        step_dict(k1)
+        step_element(ref0, steps[-1][2])
+
+    all_ok_steps = 0
+    history = []
+    for form, do, exp in steps:
+        history.append(form)
+        mech = dict(mech0, form=form, after='>'.join(history[:-1]) or 'initial')
+        try:
+            do()
+            R.count('call_succeeds')
+        except Exception as e:
+            R.exception('call_succeeds', e, dict(mech, call='set'))
+            break
+        cur = exp
+        R.observe('user_steps_' + form.split('_')[0])
+        # ---- public results: scalar T per point, then one array call
+        results = []
+        try:
+            for (X, T, x, labels, xcs, Phi, G2) in state:
+                xa = x[0] if (n == 2 and case['block'] % 2 == 0) else x
+                results.append(('scalar', np.asarray(therm.getInterdiffusivity(xa, T), dtype=float),
+                                np.asarray(therm.getTracerDiffusivity(xa, T), dtype=float)))
+            if len(state) >= 2:
+                xs = [s[2] for s in state]
+                Ts = [s[1] for s in state]
+                Da = therm.getInterdiffusivity(xs, Ts)
+                Ta = therm.getTracerDiffusivity(xs, Ts)
+                for i in range(len(state)):
+                    results.append(('array', np.asarray(Da[i], dtype=float), np.asarray(Ta[i], dtype=float)))
+            R.count('call_succeeds')
+        except Exception as e:
+            R.exception('call_succeeds', e, dict(mech, call='public'))
+            break
+        for ri, (targ, D, Dt) in enumerate(results):
+            X, T, x, labels, xcs, Phi, G2 = state[ri % len(state)]
+            m = dict(mech, T_arg=targ)
+            val = np.array([float(cur[e](T)) for e in els])          # prescribed, input order
+            shape_ok = Dt.shape == (n,) and (D.shape == (() if n == 2 else (n - 1, n - 1)))
+            if not shape_ok or not np.all(np.isfinite(Dt)) or not np.all(np.isfinite(D)):
+                R.check('user_tracer', False, m, tracer=Dt, D=D, x=X, T=T)
+                continue
+            Dm = np.atleast_2d(D)
+            if mob:
+                Reffs = Dt / (T * val)
+                dev_R = float(np.max(np.abs(Reffs - R_NOMINAL)))
+                spread = float((np.max(Reffs) - np.min(Reffs)) / np.mean(Reffs))
+                R.worst('user_tracer_R_spread', spread)
+                R.check('user_tracer', dev_R <= TOL_R_ABS and spread <= TOL_R_SAME and bool(np.all(Dt > 0)), m,
+                        tracer=Dt, prescribed_mobility=val, R_eff=Reffs, elements=els, x=X, T=T)
+                xl = np.array([xcs[labels.index(e)] for e in labels])
+                Ml = np.array([val[els.index(e)] for e in labels])
+                rest = els[1:]
+                Dref = np.zeros((n - 1, n - 1))
+                for k, ek in enumerate(rest):
+                    for j, ej in enumerate(rest):
+                        Dref[k, j] = sum(((1.0 if ei == ek else 0.0) - xl[labels.index(ek)]) * xl[i] * Ml[i]
+                                         * Phi[i][ej] for i, ei in enumerate(labels))
+                sc = np.sqrt(np.abs(np.outer(np.diag(Dref), np.diag(Dref))))
+                rel = float(np.max(np.abs(Dm - Dref) / sc)) if np.all(sc > 0) else float('inf')
+                if n == 2:      # Darken with kawin's own curvature and the prescribed mobilities
+                    a, b = els[0], els[1]
+                    xa_, xb_ = float(xcs[labels.index(a)]), float(xcs[labels.index(b)])
+                    dark = xa_ * xb_ * G2 * (xb_ * val[0] + xa_ * val[1])
+                    rel = max(rel, abs(float(D) - dark) / abs(dark))
+                R.worst('user_interdiff_rel_mob', rel if math.isfinite(rel) else 1e300)
+                R.check('user_interdiff', rel <= TOL_CONSIST and bool(np.all(np.linalg.eigvals(Dm).real > 0)), m,
+                        D=Dm, expected=Dref, rel=rel, prescribed_mobility=val, elements=els, x=X, T=T)
+            else:
+                relT = float(np.max(np.abs(Dt / val - 1.0)))
+                R.worst('user_tracer_rel_diff', relT)
+                R.check('user_tracer', relT <= TOL_USER_EXACT and bool(np.all(Dt > 0)), m, tracer=Dt,
+                        prescribed_diffusivity=val, elements=els, x=X, T=T)
+                Dref = np.diag(val[1:])
+                rel = float(np.max(np.abs(Dm - Dref)) / np.min(val[1:]))
+                R.worst('user_interdiff_rel_diff', rel)
+                R.check('user_interdiff', rel <= TOL_USER_EXACT, m, D=Dm, expected=Dref, rel=rel, elements=els,
+                        x=X, T=T)
+        all_ok_steps += 1
+    R.info['user_program'] = history
+    R.set_nontrivial(all_ok_steps == len(steps) and any(min(s[0].values()) > NT_XMIN for s in state))
+
+
 # ------------------------------------------------------------------------------------------------ the case
 def run_case(case, R):
     from vlib import core
+    if case.get('kind') == 'user':
+        return _run_user(case, R)
     therm = _therm(case)
     els = list(case['elements'])
     # independent reference for the phase= argument: an object that lists only the judged phase
